@@ -278,6 +278,61 @@ def E2() -> bool:
     return run(body_E2, "X", {})
 
 
+# -- E3: many hand-overs, logs merged file after file ---------------------------------------------
+def body_E3(ctx):
+    """W tasks each hand work over (serialize_task_id in the front process, continue_task in the
+    worker, ids alternately bytes / text); the two log files are merged front-then-worker,
+    worker-then-front or chronologically: every task parses to ONE complete tree whose remote
+    action sits at the reserved position - however many tasks are pending in the parser."""
+    from eliot.parse import Parser
+    from eliot import MemoryLogger
+
+    W = [3, 1000, 1001, 1400][ctx.choose(4, "number of hand-overs")]
+    merge = ctx.choose(3, "merge order")
+    front, worker = MemoryLogger(), MemoryLogger()
+    chrono = []
+    reserved = {}
+    for i in range(W):
+        with start_action(front, "front:request", n=i) as a:
+            tid = a.serialize_task_id()
+            reserved[a.task_uuid] = None
+        n0 = len(front.messages)
+        with Action.continue_task(worker, tid if i % 2 else tid.decode("ascii")) as r:
+            reserved[a.task_uuid] = r._task_level.as_list()
+            r.log("worker:step", n=i)
+    fm = [json.loads(json.dumps(m)) for m in front.messages]
+    wm = [json.loads(json.dumps(m)) for m in worker.messages]
+    if merge == 0:
+        stream = fm + wm
+    elif merge == 1:
+        stream = wm + fm
+    else:
+        stream = sorted(fm + wm, key=lambda m: m["timestamp"])
+    try:
+        tasks = list(Parser.parse_stream(stream))
+    except Exception as e:
+        ctx.fail("parser raised %r on %d hand-overs" % (e, W))
+    uu = [t.root().task_uuid for t in tasks]
+    ctx.check(len(uu) == W and len(set(uu)) == W, "%d hand-overs merged in order %d parsed into %d trees (%d distinct tasks)", W, merge, len(uu), len(set(uu)))
+    for t in tasks:
+        root = t.root()
+        ctx.check(t.is_complete(), "with %d hand-overs, task %s is not complete after both files were read", W, root.task_uuid)
+        ctx.check(isinstance(root, _action.WrittenAction) and root.action_type == "front:request", "root of task %s is %r", root.task_uuid, getattr(root, "action_type", None))
+        kids = [k for k in root.children if isinstance(k, _action.WrittenAction)]
+        ctx.check(len(kids) == 1 and kids[0].action_type == "eliot:remote_task" and kids[0].task_level.as_list() == reserved[root.task_uuid], "continuation of task %s is not the child at the reserved position %r", root.task_uuid, reserved[root.task_uuid])
+    ctx.nontrivial((W, merge))
+    if W > 1000 and merge != 2:
+        ctx.reached("wide")
+    ctx.sample({"hand_overs": W, "merge": ["front+worker", "worker+front", "chronological"][merge]})
+
+
+def E3() -> bool:
+    """
+    post: _
+    """
+    return run(body_E3, "X", {})
+
+
 def _e1_shards(tier):
     cfgs = [{"N": 4, "D": 3, "max_lines": 8}, {"N": 3, "D": 3, "max_lines": 8, "inline_remote": 1, "same_side": 1}] if tier == "quick" else [{"N": 5, "D": 3, "max_lines": 9, "switches": 3}, {"N": 4, "D": 3, "max_lines": 9, "idtext": 1}, {"N": 4, "D": 3, "max_lines": 9, "exc": 3}, {"N": 4, "D": 3, "max_lines": 9, "inline_remote": 1, "same_side": 1}]
     out = []
@@ -309,4 +364,6 @@ OBLIGATIONS = [
     Ob("E2", E2, body_E2, "X", desc="one preserve_context callable raced by 2-3 threads at line granularity: f runs exactly once, the others get TooManyCalls, result/exception passes through", functions=["preserve_context", "restore_eliot_context", "Action.continue_task"],
        shards={"quick": [{"threads": 2, "P": 3}, {"threads": 1, "P": 0, "callables": 1}], "thorough": [{"threads": 2, "P": 1000}, {"threads": 3, "P": 3}, {"threads": 2, "P": 2, "callables": 1}]}, twin=[{"threads": 2, "P": 3, "twin_label": "raced"}], timeout={"quick": 100, "thorough": 900},
        bounds={"quick": "2 threads, <= 3 preemptions, yield at every line of restore_eliot_context; one thread with 4 kinds of callable (function, functools.partial, object with __call__, bound method)", "thorough": "2 threads all schedules; 3 threads <= 3 preemptions; the 4 kinds of callable with 2 threads <= 2 preemptions"}),
+    Ob("E3", E3, body_E3, "X", desc="3 / 1000 / 1001 / 1400 hand-overs with ids as bytes and text; the two files merged in three orders: one complete tree per task, continuation at the reserved position", functions=["Action.serialize_task_id", "Action.continue_task", "Parser.parse_stream", "Parser.add"],
+       twin=[{"twin_label": "wide"}], timeout={"quick": 100, "thorough": 300}, bounds={"quick": "4 sizes x 3 merge orders (front file first, worker file first, chronological)"}),
 ]
